@@ -28,7 +28,7 @@ func CheckC03(c *Ctx) int {
 		return GenCfg{Keys: 10 + rng.Intn(10), Vals: 8, MaxDepth: 2, Readers: 1 + rng.Intn(2), Txs: 60 + rng.Intn(40), OpsPerTx: 1 + rng.Intn(6), PReopen: 0.04}
 	}, true)
 	scs = append(scs, concurrentScenarios("c03c", c.Pick(24, 300), c.Seed)...)
-	o := RunScenarios(scs, ValidateSpec{KV: true, Bolt: true}, filepath.Join(c.WorkDir, "runs"), 14, 4, 10*time.Minute)
+	o := RunScenarios(scs, ValidateSpec{KV: true, Bolt: true}, filepath.Join(c.WorkDir, "runs"), 14, 4, c.ChildTimeout())
 	c.Absorb(o)
 	// the same concurrent drivers under the race detector
 	raceBin := filepath.Join(filepath.Dir(Self()), "verif-race")
@@ -43,7 +43,7 @@ func CheckC03(c *Ctx) int {
 			if j > len(rs) {
 				j = len(rs)
 			}
-			_, out, werr := runChild(fmt.Sprintf("race%03d", i), rs[i:j], wd, 10*time.Minute)
+			_, out, werr := runChild(fmt.Sprintf("race%03d", i), rs[i:j], wd, c.ChildTimeout())
 			races += j - i
 			if strings.Contains(out, "WARNING: DATA RACE") {
 				rep := out[strings.Index(out, "WARNING: DATA RACE"):]
@@ -134,7 +134,7 @@ func CheckC13(c *Ctx) int {
 			PReopen: 0.3, OptsChoice: cs}
 		scs = append(scs, Scenario{Name: fmt.Sprintf("c13-%d-%d", c.Seed, i), Kind: "random", Seed: c.Seed*31 + int64(i), Opts: first, Profile: prof, Gen: &g, Observe: true})
 	}
-	o := RunScenarios(scs, ValidateSpec{KV: true, Bolt: true}, filepath.Join(c.WorkDir, "runs"), 14, 5, 10*time.Minute)
+	o := RunScenarios(scs, ValidateSpec{KV: true, Bolt: true}, filepath.Join(c.WorkDir, "runs"), 14, 5, c.ChildTimeout())
 	c.Absorb(o)
 	c.Cov["evaluations"] = o.Counters["reopen"]
 	c.Cov["distinct_nontrivial"] = DistinctNontrivial(o.PerScenario, func(m map[string]int) bool { return m["reopen"] >= 2 && m["commit"] > 3 })
